@@ -1215,7 +1215,7 @@ where
         }
     }
     if deep() {
-        println!("-- unoptimised build, long runs on 128 KiB stacks --");
+        println!("-- unoptimised build, long runs on 256 KiB stacks --");
     } else if lite() {
         println!("-- plain release profile (no overflow checks / debug assertions), reduced space --");
     }
